@@ -320,10 +320,24 @@ def run(ctx):
                 continue
             row = []
             for e in p.events:
+                if e.kind == "RETURN" and e.depth:
+                    continue          # the return of a helper S inlined
                 if e.kind in ("TRY", "CATCH", "ENDCATCH", "ITER", "LOOP", "LOOPEND", "RETURN", "FINALLY"):
                     row.append((e.kind,))
                     continue
                 if e.kind == "ASSUME" and drop_discard and N.contains(e["cond"], N.selfattr("discard")):
+                    continue
+                if e.kind == "GETITEM":
+                    continue          # reading an entry is not an effect; it shows in the terms that use it
+                if e.kind == "NEWCTX":
+                    # the scope, however it is put together (inline or through a package-level factory S inlined; `_root=None` up front or not)
+                    row.append(("NEWCTX", tuple(sorted((k, N.canon_lids(v)) for k, v in e["kw"] if k != "_root"))))
+                    continue
+                if e.kind == "CTXSET" and e["key"] == N.const("_root"):
+                    new = e["ctx"]
+                    fix = (("call", ("attr", ("attr", new, "_"), "get"), (N.const("_root"), new), ()), ("ctxget", CTX, (N.const("_root"), new)),
+                           ("call", ("attr", ("sub", new, N.const("_")), "get"), (N.const("_root"), new), ()))
+                    row.append(("ROOTFIX", e["value"] in fix or N.canon_lids(e["value"])))
                     continue
                 sig = e.sig()
                 if e.kind == "RAISE":
